@@ -123,6 +123,11 @@ class WirePropagateManager(WireManagerBase):
         """Checks each wire whether their coincidents (wires from other blocks)
         have grading defined already; if so, copy it and return True.
         Returns False otherwise"""
+        if len(self.chops) == 0:
+            # nothing to hand on to neighbours yet: an axis that became 'defined'
+            # by copying wires alone would stall propagate_gradings() forever
+            return
+
         self.copy_neighbours()
         self.propagate_grading()
 
